@@ -225,6 +225,23 @@ def run(f, fixture, rep, cfg, tier):
         via_q = any(isinstance(u[2], tuple) and c.body.call_at(u[0]).decl == "std::ops::Try::branch" for u in c.body.uses(c.dest["l"]))
         rep.check(via_q, "R7", "decode|propagated", "decode errors are `?`-propagated", "a base64 decode error is not propagated", c.loc())
 
+    # ---- R8 what the signature vouches for ---------------------------------------------------------
+    # the signature covers the header only; the payload is tied to it through the digests recorded in the header, so
+    # those must be recorded on every build (C08.R2) - otherwise a signed package carries an unprotected payload
+    rep.rule("R8", "the payload digest the signed header vouches for is always recorded")
+    from c08 import check_always_recorded
+    check_always_recorded(f, rep, "R8")
+
+    # ---- R10 the digests verify_signature relies on -----------------------------------------------------------------
+    rep.rule("R10", "verify_signature's digest step is sound (C03's rules on verify_digests)")
+    rep.include("c03", f, fixture, cfg, tier, "R10", "digest verification (a step of verify_signature)", floor=20)
+
+    # ---- R9 the signature tags are rpm's signature tags ------------------------------------------------------------
+    rep.rule("R9", "signature tag numbers equal rpm's (rpmtag.h)")
+    from tagtable import check_tag_numbers
+    check_tag_numbers(f, rep, "R9", names={"RPMSIGTAG_OPENPGP", "RPMSIGTAG_RSA", "RPMSIGTAG_DSA", "RPMSIGTAG_PGP", "RPMSIGTAG_GPG", "RPMSIGTAG_SHA256", "RPMSIGTAG_SHA1", "RPMSIGTAG_MD5",
+                                            "RPMTAG_PAYLOADDIGEST", "RPMTAG_PAYLOADDIGESTALGO"})
+
     # ---- R6 pgp verifier --------------------------------------------------------------------------
     if cfg in ("default", "default+bzip2"):
         pv = [x for x in f.body_list if x.impl_trait == "rpm::signature::traits::Verifying" and x.name == "verify" and (x.impl_self or "").endswith("pgp::Verifier")]
